@@ -53,7 +53,7 @@ package roaring
 // coupled(b): the abstract set $set used by the contracts of package pilosa is the set
 // the containers hold.  The trusted mutators of verif_contracts_abstract.go are
 // assumed to maintain it; the verified readers below rely on it.
-//@ spec coupled(b *Bitmap) = forall x :: b.$set[x] <==> bmem(b, x)
+//@ spec coupled(b *Bitmap) = forall x :: u64(x) ==> (b.$set[x] <==> bmem(b, x))
 
 //@ contract (*Bitmap).Contains props C01,C02,C07
 //@   requires b != nil && b.Containers != nil && (forall k :: cm(b, k) != nil ==> wfT(cm(b, k)))
@@ -69,6 +69,7 @@ package roaring
 // container is the cardinality side condition explained in verif_contracts_mutate.go.
 //@ contract (*Bitmap).DirectAdd props C01,C02
 //@   requires bmWF(b) && bmSep(b)
+//@   modifies b.Containers.$m, sliceContainers.*, bTreeContainers.*, tree.*, elemtype *Container, cm(b, v / 65536).flags, cm(b, v / 65536).pointer, cm(b, v / 65536).len, cm(b, v / 65536).cap, cm(b, v / 65536).data, cm(b, v / 65536).typeID, cm(b, v / 65536).n, cm(b, v / 65536).$arr, cm(b, v / 65536).$runs, cm(b, v / 65536).$bm, elems(cm(b, v / 65536).$arr), elems(cm(b, v / 65536).$runs), elems(cm(b, v / 65536).$bm)
 //@   requires cm(b, v / 65536) != nil ==> roomOK(cm(b, v / 65536))
 //@   ensures forall k :: k != v / 65536 ==> cm(b, k) == old(cm(b, k))
 //@   ensures forall k :: k != v / 65536 && cm(b, k) != nil ==> cm(b, k).typeID == old(cm(b, k).typeID) && cm(b, k).n == old(cm(b, k).n) && cm(b, k).$arr == old(cm(b, k).$arr) && cm(b, k).$runs == old(cm(b, k).$runs) && cm(b, k).$bm == old(cm(b, k).$bm)
@@ -80,6 +81,7 @@ package roaring
 //@   ensures forall k :: k != v / 65536 && cm(b, k) != nil ==> sepC(cm(b, v / 65536), cm(b, k)) && sepC(cm(b, k), cm(b, v / 65536))
 //@   ensures bmSep(b)
 //@   ensures result <==> !old(bmem(b, v))
+//@   ensures forall k :: cm(b, k) != nil ==> cm(b, k).$bm.ref == 0 || fresh(cm(b, k).$bm) || (old(cm(b, k)) != nil && cm(b, k).$bm.ref == old(cm(b, k).$bm.ref))
 //@   ensures bmem(b, v)
 //@   ensures forall x :: u64(x) && x != v ==> (bmem(b, x) <==> old(bmem(b, x)))
 
@@ -88,6 +90,7 @@ package roaring
 //@ spec singleOK(c *Container) = (isBm(c) && c.n == 1 ==> (forall x, y :: 0 <= x && x < 65536 && 0 <= y && y < 65536 && memBm(c.$bm, x) && memBm(c.$bm, y) ==> x == y)) && (isRun(c) && c.n == 1 ==> len(c.$runs) == 1 && c.$runs[0].start == c.$runs[0].last)
 //@ contract (*Bitmap).remove props C01,C02
 //@   requires bmWF(b) && bmSep(b)
+//@   modifies b.Containers.$m, sliceContainers.*, bTreeContainers.*, tree.*, elemtype *Container, cm(b, v / 65536).flags, cm(b, v / 65536).pointer, cm(b, v / 65536).len, cm(b, v / 65536).cap, cm(b, v / 65536).data, cm(b, v / 65536).typeID, cm(b, v / 65536).n, cm(b, v / 65536).$arr, cm(b, v / 65536).$runs, cm(b, v / 65536).$bm, elems(cm(b, v / 65536).$arr), elems(cm(b, v / 65536).$runs), elems(cm(b, v / 65536).$bm)
 //@   requires cm(b, v / 65536) != nil ==> roomOK(cm(b, v / 65536)) && singleOK(cm(b, v / 65536))
 //@   ensures forall k :: k != v / 65536 ==> cm(b, k) == old(cm(b, k))
 //@   ensures forall k :: k != v / 65536 && cm(b, k) != nil ==> cm(b, k).typeID == old(cm(b, k).typeID) && cm(b, k).n == old(cm(b, k).n) && cm(b, k).$arr == old(cm(b, k).$arr) && cm(b, k).$runs == old(cm(b, k).$runs) && cm(b, k).$bm == old(cm(b, k).$bm)
@@ -100,3 +103,34 @@ package roaring
 //@   ensures result <==> old(bmem(b, v))
 //@   ensures !bmem(b, v)
 //@   ensures forall x :: u64(x) && x != v ==> (bmem(b, x) <==> old(bmem(b, x)))
+
+// ---- Add: op log record + DirectAdd, and the link to the abstract set ---------------
+// writeOp appends to the op log (file I/O through an io.Writer: outside the model) and
+// bumps the op counters.
+//@ contract (*Bitmap).writeOp trusted props C01,C02,C05,C07
+//@   requires b != nil
+//@   modifies b.ops, b.opN
+
+// Add (one value, as every caller in package pilosa uses it): the abstract set $set the
+// fragment contracts speak about is redefined at return as old set + {a[0]} and shown
+// to stay the set the containers hold (coupled); this is where the fragment layer's
+// view of a bitmap is tied to the verified container layer.
+//@ contract (*Bitmap).Add props C01,C02,C07,C10,C12,C13,C28
+//@   requires bmWF(b) && bmSep(b) && coupled(b) && len(a) == 1 && u64(a[0])
+//@   requires cm(b, a[0] / 65536) != nil ==> roomOK(cm(b, a[0] / 65536))
+//@   requires forall k :: cm(b, k) != nil ==> cm(b, k).$bm.ref != a.ref
+//@   modifies b.ops, b.opN, b.Containers.$m, sliceContainers.*, bTreeContainers.*, tree.*, elemtype *Container, cm(b, a[0] / 65536).flags, cm(b, a[0] / 65536).pointer, cm(b, a[0] / 65536).len, cm(b, a[0] / 65536).cap, cm(b, a[0] / 65536).data, cm(b, a[0] / 65536).typeID, cm(b, a[0] / 65536).n, cm(b, a[0] / 65536).$arr, cm(b, a[0] / 65536).$runs, cm(b, a[0] / 65536).$bm, elems(cm(b, a[0] / 65536).$arr), elems(cm(b, a[0] / 65536).$runs), elems(cm(b, a[0] / 65536).$bm)
+//@   ghostdef b.$set[x] := (err == nil && x == a[0]) || old(b.$set[x])
+//@   ensures err == nil ==> b.$set[a[0]] && (changed <==> !old(b.$set[a[0]]))
+//@   ensures err == nil ==> (forall x :: x != a[0] ==> (b.$set[x] <==> old(b.$set[x])))
+//@   ensures err != nil ==> !changed && (forall x :: b.$set[x] <==> old(b.$set[x]))
+//@   ensures bmWF(b) && bmSep(b)
+//@   ensures coupled(b)
+//@   loop 1 invariant 0 <= $i + 1 && $i + 1 <= len(a) && unchanged(a) && bmWF(b) && bmSep(b)
+//@   loop 1 invariant forall k :: cm(b, k) != nil ==> cm(b, k).$bm.ref != a.ref
+//@   loop 1 invariant $i == -1 ==> (forall k :: cm(b, k) == old(cm(b, k)))
+//@   loop 1 invariant $i == -1 ==> (forall k :: cm(b, k) != nil ==> cm(b, k).$arr == old(cm(b, k).$arr) && cm(b, k).$runs == old(cm(b, k).$runs) && cm(b, k).$bm == old(cm(b, k).$bm))
+//@   loop 1 invariant $i == -1 ==> !changed && (bmem(b, a[0]) <==> old(bmem(b, a[0]))) && (forall x :: u64(x) ==> (bmem(b, x) <==> old(bmem(b, x)))) && (cm(b, a[0] / 65536) != nil ==> roomOK(cm(b, a[0] / 65536)))
+//@   loop 1 invariant $i == 0 ==> (changed <==> !old(bmem(b, a[0])))
+//@   loop 1 invariant $i == 0 ==> bmem(b, a[0])
+//@   loop 1 invariant $i == 0 ==> (forall x :: u64(x) && x != a[0] ==> (bmem(b, x) <==> old(bmem(b, x))))
